@@ -254,6 +254,34 @@ static ANY: DTarget = DTarget::Any;
 static IDENT: DTarget = DTarget::Hint("identifier");
 static IGNORED: DTarget = DTarget::Ignored;
 
+thread_local! {
+	static EVENT_BUDGET: std::cell::Cell<usize> = const { std::cell::Cell::new(EVENT_BUDGET_PER_CASE) };
+	static EVENT_BUDGET_HIT: std::cell::Cell<bool> = const { std::cell::Cell::new(false) };
+}
+/// The recording visitor keeps every element of every sequence / map it is handed. A hostile 10-byte input can announce
+/// hundreds of millions of zero-byte items (within the crate's default max_seq_size): recording them would take tens of
+/// gigabytes here and in the runner. Beyond this many recorded elements per case the visitor returns an error and the case is
+/// reported as `(budget)` (skipped by the runners, counted).
+const EVENT_BUDGET_PER_CASE: usize = 2_000_000;
+pub fn reset_event_budget() {
+	EVENT_BUDGET.with(|b| b.set(EVENT_BUDGET_PER_CASE));
+	EVENT_BUDGET_HIT.with(|b| b.set(false));
+}
+pub fn event_budget_exhausted() -> bool {
+	EVENT_BUDGET_HIT.with(|b| b.get())
+}
+fn spend_event<E: Error>() -> Result<(), E> {
+	EVENT_BUDGET.with(|b| {
+		if b.get() == 0 {
+			EVENT_BUDGET_HIT.with(|h| h.set(true));
+			Err(E::custom("avrodrive: event budget of the recording visitor exhausted"))
+		} else {
+			b.set(b.get() - 1);
+			Ok(())
+		}
+	})
+}
+
 struct V<'t>(&'t DTarget);
 
 fn tuple_seq<'de, A: SeqAccess<'de>>(ts: &[DTarget], mut seq: A) -> Result<DVal, A::Error> {
@@ -420,6 +448,7 @@ impl<'de, 't> Visitor<'de> for V<'t> {
 				};
 				let mut out = Vec::new();
 				while let Some(d) = seq.next_element_seed(elem)? {
+					spend_event::<A::Error>()?;
 					out.push(d);
 				}
 				Ok(DVal::Seq(out))
@@ -437,6 +466,7 @@ impl<'de, 't> Visitor<'de> for V<'t> {
 				let mut out = Vec::new();
 				while let Some(k) = map.next_key_seed(tk)? {
 					let v = map.next_value_seed(tv)?;
+					spend_event::<A::Error>()?;
 					out.push((k, v));
 				}
 				Ok(DVal::Map(out))
